@@ -476,28 +476,57 @@ def _constraint_alias(cls: ClassInfo, attr: str, raw: str) -> bool:
 def initialize_bounds(idx: ProgramIndex, rep: Report):
     gm = idx.cls("gpytorch.module", "Module")
     fi = idx.method(gm, "initialize", own=True)
+    # the loop `for <name>, <val> in kwargs.items()` names the value variable; everything below is relative to it
+    kw = fi.node.args.kwarg.arg if fi.node.args.kwarg else None
+    val = None
+    for n in ast.walk(fi.node):
+        if isinstance(n, ast.For) and isinstance(n.iter, ast.Call) and isinstance(n.iter.func, ast.Attribute) and n.iter.func.attr == "items" and chain(n.iter.func.value) == kw \
+                and isinstance(n.target, ast.Tuple) and len(n.target.elts) == 2 and isinstance(n.target.elts[1], ast.Name):
+            val = n.target.elts[1].id
+    if val is None:
+        raise AnalysisError("anchor vanished: the loop over the keyword arguments of Module.initialize")
     # find the two value branches
     found = {"Tensor": None, "float": None}
     for n in ast.walk(fi.node):
         if isinstance(n, ast.If):
-            t = src(n.test)
-            m = re.match(r"^isinstance\(val, (?:torch\.)?(Tensor|float)\)$", t)
-            if m:
-                found[m.group(1)] = n
+            t = n.test
+            if isinstance(t, ast.Call) and chain(t.func) == "isinstance" and len(t.args) == 2 and isinstance(t.args[0], ast.Name) and t.args[0].id == val:
+                k = src(t.args[1]).split(".")[-1]
+                if k in found:
+                    found[k] = n
     for kind, node in found.items():
         inst = "gpytorch.module:Module.initialize[%s path]" % kind
         if node is None:
             raise AnalysisError("anchor vanished: %s" % inst)
         body = node.body
+        # locals bound to the parameter's constraint
+        cnames = {st.targets[0].id for st in body if isinstance(st, ast.Assign) and len(st.targets) == 1 and isinstance(st.targets[0], ast.Name)
+                  and isinstance(st.value, ast.Call) and isinstance(st.value.func, ast.Attribute) and st.value.func.attr == "constraint_for_parameter_name"}
+
+        def is_bound_check(t) -> bool:
+            """not <constraint>.check_raw(<val>)"""
+            return isinstance(t, ast.UnaryOp) and isinstance(t.op, ast.Not) and isinstance(t.operand, ast.Call) and isinstance(t.operand.func, ast.Attribute) and t.operand.func.attr == "check_raw" \
+                and isinstance(t.operand.func.value, ast.Name) and t.operand.func.value.id in cnames and len(t.operand.args) == 1 and isinstance(t.operand.args[0], ast.Name) and t.operand.args[0].id == val
+
+        def is_weakening_ok(t) -> bool:
+            """<constraint> is not None | <constraint>.enforced"""
+            if isinstance(t, ast.Compare) and len(t.ops) == 1 and isinstance(t.ops[0], ast.IsNot) and isinstance(t.left, ast.Name) and t.left.id in cnames and isinstance(t.comparators[0], ast.Constant) and t.comparators[0].value is None:
+                return True
+            return isinstance(t, ast.Attribute) and t.attr == "enforced" and isinstance(t.value, ast.Name) and t.value.id in cnames
+
         # the write statements
         writes = [i for i, st in enumerate(body) if _is_param_write(st)]
-        checks = [i for i, st in enumerate(body) if isinstance(st, ast.If) and "check_raw(val)" in src(st.test) and "not " in src(st.test) and any(isinstance(s, ast.Raise) for s in st.body)]
-        ok = bool(writes) and bool(checks) and min(checks) < min(writes)
+        checks = []
+        for i, st in enumerate(body):
+            if isinstance(st, ast.If) and any(isinstance(s_, ast.Raise) for s_ in st.body):
+                atoms = st.test.values if isinstance(st.test, ast.BoolOp) and isinstance(st.test.op, ast.And) else [st.test]
+                if any(is_bound_check(a_) for a_ in atoms):
+                    checks.append((i, atoms, st.test))
+        ok = bool(writes) and bool(checks) and min(c[0] for c in checks) < min(writes)
         if ok:
             # the guard may be weakened only by `constraint is not None` / `constraint.enforced`
-            t = body[min(checks)].test
-            atoms = [src(v) for v in (t.values if isinstance(t, ast.BoolOp) and isinstance(t.op, ast.And) else [t])]
-            extra = [a for a in atoms if a not in ("constraint is not None", "constraint.enforced", "not constraint.check_raw(val)")]
+            _, atoms, t = min(checks, key=lambda c: c[0])
+            extra = [a_ for a_ in atoms if not (is_bound_check(a_) or is_weakening_ok(a_))]
             if extra or (isinstance(t, ast.BoolOp) and not isinstance(t.op, ast.And)):
                 ok = False
         rep.add("C17-4", inst, "%s:%d" % (fi.module.relpath, node.lineno), ok,
@@ -643,7 +672,16 @@ def _same_raw(cls: ClassInfo, target: str, reach: str) -> bool:
 def sampling_and_writes(idx: ProgramIndex, rep: Report):
     gm = idx.cls("gpytorch.module", "Module")
     fi = idx.method(gm, "initialize", own=True)
-    # every write into the parameter's data carries `val` (expanded / viewed / as is), nothing else
+    # every write into the parameter's data carries the loop's value variable (expanded / viewed / as is), nothing else
+    kw = fi.node.args.kwarg.arg if fi.node.args.kwarg else None
+    name_var = val_var = None
+    for n in ast.walk(fi.node):
+        if isinstance(n, ast.For) and isinstance(n.iter, ast.Call) and isinstance(n.iter.func, ast.Attribute) and n.iter.func.attr == "items" and chain(n.iter.func.value) == kw \
+                and isinstance(n.target, ast.Tuple) and len(n.target.elts) == 2 and all(isinstance(e, ast.Name) for e in n.target.elts):
+            name_var, val_var = n.target.elts[0].id, n.target.elts[1].id
+    if val_var is None:
+        raise AnalysisError("anchor vanished: the loop over the keyword arguments of Module.initialize")
+    sn0 = fi.params[0]
     probs = []
     nw = 0
     for n in ast.walk(fi.node):
@@ -658,20 +696,60 @@ def sampling_and_writes(idx: ProgramIndex, rep: Report):
         root = v
         while isinstance(root, ast.Call) and isinstance(root.func, ast.Attribute) and root.func.attr in ("expand_as", "view_as", "expand", "view", "to", "type_as", "clone", "detach"):
             root = root.func.value
-        if not (isinstance(root, ast.Name) and root.id == "val"):
+        if not (isinstance(root, ast.Name) and root.id == val_var):
             probs.append("parameter data is written with `%s`, not with the given value" % src(v)[:50])
         tgt = n.func.value if isinstance(n, ast.Call) else n.targets[0]
-        if "self.__getattr__(name)" not in src(tgt) and "getattr(self, name)" not in src(tgt):
+        named = any(isinstance(c, ast.Call) and ((chain(c.func) == "%s.__getattr__" % sn0 and len(c.args) == 1 and src(c.args[0]) == name_var) or
+                                                 (chain(c.func) == "getattr" and len(c.args) == 2 and src(c.args[0]) == sn0 and src(c.args[1]) == name_var)) for c in ast.walk(tgt))
+        if not named:
             probs.append("the write `%s` does not target the named parameter" % src(tgt)[:50])
-    rep.add("C17-6", "gpytorch.module:Module.initialize[writes]", fi.where, not probs and nw >= 3, "all %d writes store `val` (reshaped at most) into the named parameter" % nw if not probs else "; ".join(sorted(set(probs))), {"writes": nw})
+    rep.add("C17-6", "gpytorch.module:Module.initialize[writes]", fi.where, not probs and nw >= 3, "all %d writes store the given value (reshaped at most) into the named parameter" % nw if not probs else "; ".join(sorted(set(probs))), {"writes": nw})
+    # sample_from_prior (inlined expressions): <registration>[setting position](self, <registration>[prior position].sample(...)),
+    # after a test `<registration>[setting position] is None` that raises
+    from ..symbolic import inline, walk_paths
+    from .common_enum import registration_tuple_roles
+    roles = registration_tuple_roles(idx)
     sp = idx.method(gm, "sample_from_prior", own=True)
-    calls = [c for c in calls_in(sp.node) if isinstance(c.func, ast.Name) and c.func.id == "setting_closure"]
-    ok = len(calls) == 1 and len(calls[0].args) == 2 and src(calls[0].args[0]) == sp.params[0] and src(calls[0].args[1]).startswith("prior.sample(")
-    unpack = any(isinstance(n, ast.Assign) and isinstance(n.targets[0], ast.Tuple) and len(n.targets[0].elts) == 3 and src(n.targets[0].elts[0]) == "prior" and src(n.targets[0].elts[2]) == "setting_closure" and "self._priors[prior_name]" in src(n.value) for n in ast.walk(sp.node))
-    raises = any(isinstance(n, ast.If) and "setting_closure is None" in src(n.test) and any(isinstance(x, ast.Raise) for x in n.body) for n in ast.walk(sp.node))
-    rep.add("C17-6", "gpytorch.module:Module.sample_from_prior", sp.where, ok and unpack and raises,
-            "setting_closure(self, prior.sample()) with the closure registered for that prior; missing closure raises" if ok and unpack and raises else
-            "sample_from_prior no longer stores prior.sample() through the prior's own setting closure (or silently skips a missing closure)", {})
+    ssn, pn = sp.params[0], sp.params[1]
+
+    def reg_field(e):
+        """position k if e is self._priors[<prior_name>][k]"""
+        if isinstance(e, ast.Subscript) and isinstance(e.slice, ast.Constant) and isinstance(e.value, ast.Subscript) and chain(e.value.value) == "%s._priors" % ssn and src(e.value.slice) == pn:
+            return e.slice.value
+        return None
+
+    stores = guarded = 0
+    sprobs = []
+    for path, seq in walk_paths(sp):
+        refuted_none = set()
+        for stx, env in seq:
+            if not isinstance(stx, ast.stmt):
+                if stx.kind == "assume":
+                    t = inline(stx.node, env)
+                    if isinstance(t, ast.Compare) and len(t.ops) == 1 and isinstance(t.ops[0], (ast.Is, ast.IsNot)) and isinstance(t.comparators[0], ast.Constant) and t.comparators[0].value is None:
+                        k = reg_field(t.left)
+                        if k is not None and ((isinstance(t.ops[0], ast.Is) and stx.truth is False) or (isinstance(t.ops[0], ast.IsNot) and stx.truth is True)):
+                            refuted_none.add(k)
+                continue
+            if isinstance(stx, ast.Expr) and isinstance(stx.value, ast.Call):
+                c = stx.value
+                k = reg_field(inline(c.func, env))
+                if k is None:
+                    continue
+                stores += 1
+                if k == roles.get("prior") or k == roles.get("closure"):
+                    sprobs.append("the value is stored through field %d of the registration, which is not the setting closure" % k)
+                args = [inline(a_, env) for a_ in c.args]
+                if not (len(args) == 2 and src(args[0]) == ssn and isinstance(args[1], ast.Call) and isinstance(args[1].func, ast.Attribute) and args[1].func.attr in ("sample", "rsample") and reg_field(args[1].func.value) == roles.get("prior")):
+                    sprobs.append("the setting closure is not called with (self, <registered prior>.sample()): `%s`" % src(stx)[:60])
+                if k in refuted_none:
+                    guarded += 1
+                else:
+                    sprobs.append("a missing setting closure is not rejected before the call")
+    ok = stores >= 1 and not sprobs
+    rep.add("C17-6", "gpytorch.module:Module.sample_from_prior", sp.where, ok,
+            "setting_closure(self, prior.sample()) with the closure registered for that prior; missing closure raises" if ok else
+            "sample_from_prior no longer stores prior.sample() through the prior's own setting closure (or silently skips a missing closure): %s" % ("; ".join(sorted(set(sprobs))) or "no store found"), {})
     # register_prior stores (prior, closure, setting_closure) under the name and, for string names, a setting closure that initialises that parameter
     rp = idx.method(gm, "register_prior", own=True)
     pname = rp.params[2]  # the `prior` parameter
